@@ -297,7 +297,14 @@ def run_r1(repo: Repo, res: Result) -> None:
                     return pol
             return None
 
-        prov = Provenance(fn, source, lambda a: _scalar_type(fn.type_of(a)), attr_tags, assume)
+        def passes(call: ast.Call) -> bool:
+            # constructors (objects carry what they are built from) and order / duplicate-only copies hand their arguments on
+            if isinstance(call.func, ast.Name) and call.func.id in ("list", "tuple", "set", "frozenset", "sorted", "cast", "iter", "reversed"):
+                return True
+            cs, how = fn.callees(call)
+            return how == "ctor" or (bool(cs) and all(f.name in ("__init__", "__post_init__") for f in cs))
+
+        prov = Provenance(fn, source, lambda a: _scalar_type(fn.type_of(a)), attr_tags, assume, passes)
         # ---- (1) the conversion runs on every evaluation, before any query, against the evaluable being queried
         problems: list[tuple[str, ast.AST, bool]] = []  # (text, node, depends on matcher state)
         if not convs:
@@ -360,18 +367,28 @@ def run_r1(repo: Repo, res: Result) -> None:
         for q in queries:
             args = [*q.args, *[k.value for k in q.keywords]]
             bad = ""
+            unsure = ""
             got: set[str] = set()
             for a in args:
                 t = prov.of(a)
                 pre = sorted(x for x in t if x.startswith("pre:"))
                 got |= {x[6:] for x in t if x.startswith("cside:")}
+                flt = sorted(x for x in t if x.startswith("via:filter:"))
+                via = sorted(x for x in t if x.startswith("via:") and not x.startswith("via:filter:"))
                 if pre:
                     bad = bad or f"`{norm(a, 60)}` is read from `{pre[0][4:]}` as it was before this evaluation's conversion (the un-converted or a stale requirement)"
                 elif not any(x.startswith("conv:") for x in t):
                     bad = bad or f"`{norm(a, 60)}` does not come from the conversion"
+                elif flt:
+                    bad = bad or f"the converted filters are filtered (`{flt[0][11:]}`) before they reach `{norm(a, 60)}`: modules the regex matches are dropped from the rule"
+                elif via:
+                    unsure = unsure or f"the converted filters pass through `{via[0][4:]}` before they reach `{norm(a, 60)}` - not recognised as an unchanged hand-over"
             if not bad and convs and not set(sides) <= got:
                 bad = f"only the conversion of {sorted(got)} reaches the query"
-            res.add("C11.R1", repo.key(view, stmt_of(q)) + f" [{norm(q.func, 80)}]", not bad, "queries the graph with the converted requirement" if not bad else f"{bad}: regex filters reach a graph query", where(view, q), kind="flow")
+            if unsure and not bad:
+                res.undecide("C11.R1", repo.key(view, stmt_of(q)) + f" [{norm(q.func, 80)}]", unsure, where(view, q))
+                continue
+            res.add("C11.R1", repo.key(view, stmt_of(q)) + f" [{norm(q.func, 80)}]", not bad, "queries the graph with the converted requirement" if not bad else (bad if "filtered" in bad else f"{bad}: regex filters reach a graph query"), where(view, q), kind="flow")
         # ---- (4) consumers outside the view (detectors, message generators) read the converted requirement
         seen: set[tuple[str, str]] = set()
         for c in calls:
@@ -393,14 +410,15 @@ def run_r1(repo: Repo, res: Result) -> None:
                         continue  # only a flag of the requirement is read
                     t = prov.at(stmt_of(c), f"self.{node.attr}")
                     pre = [x for x in t if x.startswith("pre:")]
-                    okr = not pre and any(x.startswith("conv:") for x in t)
+                    flt = sorted(x for x in t if x.startswith("via:filter:"))
+                    okr = not pre and not flt and any(x.startswith("conv:") for x in t)
                     k = (m.fq, norm(stmt_of(node)) + node.attr)
                     if k in seen and okr:
                         continue
                     seen.add(k)
                     nq += 1
                     shown = up if isinstance(up, ast.Attribute) else node
-                    res.add("C11.R1", repo.key(m, stmt_of(node)) + f" [{norm(shown, 80)}]", okr, "reads the converted requirement" if okr else f"{m.qualname} reads `{norm(shown)}`, which at the call `{norm(c, 50)}` is {'the un-converted (or a stale) requirement' if pre else 'not the result of the conversion'}: regex filters reach a detector / message generator", where(m, node), kind="flow")
+                    res.add("C11.R1", repo.key(m, stmt_of(node)) + f" [{norm(shown, 80)}]", okr, "reads the converted requirement" if okr else f"{m.qualname} reads `{norm(shown)}`, which at the call `{norm(c, 50)}` is {'the un-converted (or a stale) requirement' if pre else ('the conversion result filtered by `' + flt[0][11:] + '`') if flt else 'not the result of the conversion'}: the detector / message generator does not judge the converted requirement", where(m, node), kind="flow")
         if assumed:
             res.observe(f"C11.R1: evaluated under the constructor state of a freshly created matcher ({', '.join(assumed)})")
     res.floor("C11.R1", 1, nq)  # at least one graph query was found and judged (a view without queries is an ANALYSIS-ERROR above)
